@@ -1,27 +1,42 @@
 /-
-  Progress lemmas of the Signal layer (`Signal` = pthread mutex + condition variable + flag) inside the FULL
-  micro-step model of `Future`/`ThreadPool` (`Model.lean`): for every configuration, every reachable state
-  (hence every schedule and any number of threads).  They are the Signal-level ingredients of deadlock freedom.
+  Progress lemmas of the Signal layer (`Signal` = pthread mutex + condition variable + flag) and of the pool mutex
+  inside the FULL micro-step model of `Future`/`ThreadPool` (`Model.lean`): for every configuration, every
+  reachable state (hence every schedule and any number of threads), both code orders unless stated otherwise.
+  They are the Signal-level ingredients of deadlock freedom.
 
     Progress1  vocabulary (`critFrame`, `pendB`, `Pristine`) and the abstraction `SelfStep` of one micro-step
-    Progress2  the invariants over the abstraction, transferred to reachable states (`reach_sigInv`)
-    Progress3  the pool mutex (`ThreadPool::_mutex`)
+    Progress2  the Signal invariants over the abstraction, transferred to reachable states (`reach_sigInv`)
+    Progress3  the pool mutex `ThreadPool::_mutex` (`holdStack`, `reach_poolInv`)
+    Progress4  `ThreadPool::_threads`: a context marked terminated belongs to an exiting worker (`reach_ctxInv`)
+    Progress5/6  `~ThreadPool` returns only after every worker has exited (`reach_finInv`), `no_pool_fault`
     Progress   (this file) the statements
 
-  UNCONDITIONAL (all signals, both code orders):
-    `sig_owner_in_critical_section`, `sig_owner_enabled`, `sig_lock_waiter_has_enabled_owner`,
+  UNCONDITIONAL (all signals σ):
+    `sig_owner_in_critical_section`, `sig_owner_enabled`, `sig_lock_waiter_has_enabled_owner`, `sig_owner_unique`,
     `waiter_at_cwake`, `waiters_nodup`.
   Note on `destroyF f` / `dFin`: they reset `owner := none` of a destroyed signal even when it is owned.  That
   cannot break "owner ⇒ inside the critical section" (it only removes owners), so statement 1 holds for every σ.
   It DOES break the converse (a thread inside the critical section of a destroyed-and-recreated signal is no
-  longer its owner), hence mutual exclusion and the "no lost wake-up" invariant are stated for signals that have
-  not been destroyed so far: `NeverDestroyed s σ` (`live = true ∧ gen = 0`; for the two pool signals σ < 2 this
-  is `live = true`, which holds whenever the pool exists: `pool_signal_neverDestroyed`).  Without that hypothesis
-  the statements are false for future signals in ill-formed configurations (two clients using one future: client B
-  destroys `f` while client A sits at `sWaitCwait (f+2)`; a worker then sets the re-created signal and A enters the
-  wait set of a set signal with no broadcast pending).
+  longer its owner), hence mutual exclusion and the "no lost wake-up" invariant carry a hypothesis:
+    * `NeverDestroyed s σ` (`live = true ∧ gen = 0`): `sig_mutex_exclusive`, `waiter_of_set_signal_has_pending_broadcast`
+      (and `_orig`, `_has_pending_set`, `_has_enabled_setter`), `cwait_sees_unset`;
+    * for the two pool signals (σ < 2) NO hypothesis is needed (section 6: `pool_sig_mutex_exclusive_always`,
+      `pool_sig_waiter_has_pending_set`, `pool_sig_waiter_has_enabled_setter`), because after `dFin` every thread but
+      the main thread has finished (`pool_deleted_all_finished`);
+    * for future signals (σ = f + 2) that are destroyed and re-created: `SigClean cfg s σ` (section 2b), preserved by
+      every step that does not destroy σ and re-established by `destroyF f` under a quiescence side condition.
+  Without such a hypothesis the statements are FALSE for future signals in ill-formed configurations (two clients
+  using one future: client B destroys `f` while client A sits at `sWaitCwait (f+2)`; a worker then sets the re-created
+  signal and A enters the wait set of a set signal with no broadcast pending).
+
+  OPEN:
+    * the quiescence side condition of `sigClean_recreated` ("when `~Future` runs `destroyF f`, no other thread is
+      inside the critical section of signal `f + 2`") for `cfg.WellFormed` configurations and the repaired order.  It
+      is a fact about the Future hand-shake (one client per future, `join` before `~Future`, `Signal::set` unlocks
+      last), not about the Signal layer; with it `SigClean` holds for all future signals in all reachable states.  In
+      the ORIGINAL order it is false (the known defect: broadcast after unlock on a destroyed condition variable).
 -/
-import Nstd.Future.Progress4
+import Nstd.Future.Progress6
 namespace Nstd.Future
 
 variable {cfg : Config} {s : State}
@@ -429,5 +444,67 @@ theorem global_deadlock_shape {t : Tid} {fr : Frame} (hr : Reach cfg s) (hdead :
     | true =>
       obtain ⟨u, _, h2⟩ := hnd.enabled_setter hr hb.1 hs
       rw [hdead u] at h2; cases h2
+
+/-! ### 6. after `~ThreadPool`: the pool signals without the hypothesis "the pool exists"
+
+  `pool_deleted_all_finished` (Progress6): once `dFin` has run, every thread but the main thread has finished (the
+  destructor has joined every worker, all clients were joined before).  Hence the statements about the two pool
+  signals (σ < 2) hold in EVERY reachable state.  (Progress6 also gives `pool_frame_has_pool` and `no_pool_fault`.) -/
+
+theorem pool_signal_neverDestroyed_of_alive {σ : Nat} (hr : Reach cfg s) (hσ : σ < 2) (hl : poolAlive s) :
+    NeverDestroyed s σ := by
+  obtain ⟨h1, h2, h3⟩ := (reach_sigInv hr).p01
+  have : σ = 0 ∨ σ = 1 := by omega
+  rcases this with rfl | rfl
+  · exact ⟨hl, h2⟩
+  · exact ⟨by rw [h1]; exact hl, h3⟩
+
+/-- after the pool is deleted only the main thread can still have a top frame, and it is `tExit` -/
+theorem dead_top {t : Tid} {fr : Frame} (hr : Reach cfg s) (hl : ¬ poolAlive s) (ht : topFrame s t = some fr) :
+    t = 0 ∧ fr = .tExit := by
+  obtain ⟨th, rest, hth, hst⟩ := topFrame_some ht
+  obtain ⟨hall, hm0⟩ := (reach_finInv hr).dead hl
+  have ht0 : t = 0 := by
+    cases Nat.decEq t 0 with
+    | isTrue h0 => exact h0
+    | isFalse h0 =>
+      have := finished_stack_nil hr hth (hall t th h0 hth)
+      rw [hst] at this; cases this
+  subst ht0
+  refine ⟨rfl, ?_⟩
+  rcases hm0 th hth with h2 | h2
+  · rw [hst] at h2; injection h2
+  · rw [hst] at h2; cases h2
+
+/-- mutual exclusion of the mutexes of the two pool signals, in every reachable state -/
+theorem pool_sig_mutex_exclusive_always {σ : Nat} {t u : Tid} {a b : Frame} (hr : Reach cfg s) (hσ : σ < 2)
+    (htu : t ≠ u) (ht : topFrame s t = some a) (hu : topFrame s u = some b)
+    (ha : critFrame cfg σ a = true) (hb : critFrame cfg σ b = true) : False := by
+  by_cases hl : poolAlive s
+  · exact sig_mutex_exclusive hr (pool_signal_neverDestroyed_of_alive hr hσ hl) htu ht hu ha hb
+  · exact htu ((dead_top hr hl ht).1.trans (dead_top hr hl hu).1.symm)
+
+/-- no sleeper of a pool signal misses a set flag, in every reachable state (both code orders) -/
+theorem pool_sig_waiter_has_pending_set {σ : Nat} {t : Tid} (hr : Reach cfg s) (hσ : σ < 2)
+    (ht : t ∈ (s.sigs σ).waiters) (hs : (s.sigs σ).signaled = true) :
+    ∃ u, (cfg.repaired = false ∧ topFrame s u = some (.sSetUnlock σ)) ∨ ∃ gen, topFrame s u = some (.sSetBcast σ gen) := by
+  by_cases hl : poolAlive s
+  · exact waiter_of_set_signal_has_pending_set hr (pool_signal_neverDestroyed_of_alive hr hσ hl) ht hs
+  · have := (dead_top hr hl (waiter_at_cwake hr ht)).2; cases this
+
+theorem pool_sig_waiter_has_enabled_setter {σ : Nat} {t : Tid} (hr : Reach cfg s) (hσ : σ < 2)
+    (ht : t ∈ (s.sigs σ).waiters) (hs : (s.sigs σ).signaled = true) : ∃ u, u ≠ t ∧ enabled s u = true := by
+  by_cases hl : poolAlive s
+  · exact waiter_of_set_signal_has_enabled_setter hr (pool_signal_neverDestroyed_of_alive hr hσ hl) ht hs
+  · have := (dead_top hr hl (waiter_at_cwake hr ht)).2; cases this
+
+/-- in a state where no thread is enabled, a sleeper on a pool signal sees its flag unset (no hypothesis) -/
+theorem deadlock_pool_sleeper_flag_unset {σ : Nat} {t : Tid} (hr : Reach cfg s) (hdead : ∀ u, enabled s u = false)
+    (hσ : σ < 2) (ht : t ∈ (s.sigs σ).waiters) : (s.sigs σ).signaled = false := by
+  cases hs : (s.sigs σ).signaled with
+  | false => rfl
+  | true =>
+    obtain ⟨u, _, h2⟩ := pool_sig_waiter_has_enabled_setter hr hσ ht hs
+    rw [hdead u] at h2; cases h2
 
 end Nstd.Future
